@@ -181,17 +181,25 @@ def _compositions(n):
 
 
 class _Identity:
-    """Temporarily bind digitize_data in a sampler module to the identity (exposes pre-snapping values)."""
+    """Temporarily bind digitize_data (in a sampler module and in black_it.utils.base) to the identity: exposes pre-snapping
+    values. If a refactor reaches the snapping routine some other way the binding has no effect; callers detect that and fall
+    back to the public path."""
 
     def __init__(self, mod):
-        self.mod = mod
+        import black_it.utils.base as ub
+
+        self.mods = [mod, ub]
 
     def __enter__(self):
-        self.orig = self.mod.digitize_data
-        self.mod.digitize_data = lambda data, grid: np.array(data, dtype=float)
+        self.orig = []
+        for m in self.mods:
+            if hasattr(m, "digitize_data"):
+                self.orig.append((m, m.digitize_data))
+                m.digitize_data = lambda data, grid: np.array(data, dtype=float)
 
     def __exit__(self, *a):
-        self.mod.digitize_data = self.orig
+        for m, f in self.orig:
+            m.digitize_data = f
 
 
 def _invert_base2(x):
@@ -222,6 +230,10 @@ def check_halton_sampler(seed, d, raw, n=6, bs=2):
     one = draw(HaltonSampler(batch_size=bs, random_state=seed), [n])
     if one.shape != (n, d):
         return [("sampler-shape", f"HaltonSampler seed {seed}: batch shape {one.shape}")], None
+    if raw and np.all(np.isin(one, sp.param_grid[0])):
+        # the identity binding of digitize_data had no effect (the module reaches the snapping routine another way):
+        # fall back to the public path on the dyadic grid for this case instead of judging snapped values as raw ones
+        return check_halton_sampler(seed, min(d, 3), False, n, bs)
     s = _invert_base2(one[0, 0]) - 1
     if not (20 <= s < 2**16):
         v.append(("start-index-range", f"HaltonSampler seed {seed}: first point {one[0, 0]!r} is the base-2 radical inverse of {s + 1}, start index {s} not in [20, 2^16)"))
@@ -261,30 +273,37 @@ def check_halton_sampler(seed, d, raw, n=6, bs=2):
     return v, s
 
 
-def check_rseq(seed, d, n=6, bs=2):
+def check_rseq(seed, d, n=6, bs=2, raw=True):
     import black_it.samplers.r_sequence as rm
     from black_it.samplers.r_sequence import RSequenceSampler
     from vf.core import quiet
 
     v = []
-    sp = _space(d, 0.5)
+    sp = _space(d, 0.5 if raw else 2.0**-17)
+    tol = 1e-9 if raw else 2.0**-16
     empty_p, empty_l = np.zeros((0, d)), np.zeros(0)
 
     def draw(sampler, sizes):
-        with quiet(), _Identity(rm):
+        with quiet():
+            if raw:
+                with _Identity(rm):
+                    return np.vstack([sampler.sample_batch(k, sp, empty_p, empty_l) for k in sizes])
             return np.vstack([sampler.sample_batch(k, sp, empty_p, empty_l) for k in sizes])
 
     one = draw(RSequenceSampler(batch_size=bs, random_state=seed), [n])
     if one.shape != (n, d):
-        return [("rseq-shape", f"RSequenceSampler seed {seed}: shape {one.shape}")]
-    if np.any(one < 0) or np.any(one >= 1):
+        return [("rseq-shape", f"RSequenceSampler seed {seed}: shape {one.shape}")], True
+    if raw and np.all(np.isin(one, sp.param_grid[0])):
+        # identity binding ineffective (the module reaches the snapping routine another way): public path on the dyadic grid instead
+        return check_rseq(seed, min(d, 3), n, bs, raw=False)
+    if np.any(one < 0) or np.any(one >= 1 + (0 if raw else 1e-12)):
         v.append(("rseq-range", f"RSequenceSampler seed {seed} d={d}: raw points outside [0,1)"))
     phi = phi_ref(d)
     alpha = [float(Decimal(1) / phi**k) for k in range(1, d + 1)]
     diff = np.diff(one, axis=0)
     for j in range(d):
         dd = (diff[:, j] - alpha[j] + 0.5) % 1.0 - 0.5
-        if np.max(np.abs(dd)) > 1e-9:
+        if np.max(np.abs(dd)) > tol:
             v.append(("rseq-increment", f"RSequenceSampler seed {seed} d={d}: coordinate {j} advances by {diff[:, j].tolist()} (mod 1), expected {alpha[j]!r}"))
             break
     for parts in _compositions(n):
